@@ -1836,13 +1836,18 @@ int hostlist_delete_host(hostlist_t hl, const char *hostname)
 static char *
 _hostrange_string(hostrange_t hr, int depth)
 {
-    char buf[MAXHOSTNAMELEN + 16];
-    int  len = snprintf(buf, MAXHOSTNAMELEN + 15, "%s", hr->prefix);
+    /* size as in hostrange_pop(): a fixed buffer was overrun by a long prefix */
+    size_t size = strlen(hr->prefix) + hr->width + 32;
+    char *buf = malloc(size);
 
-    if (!hr->singlehost)
-        snprintf(buf+len, MAXHOSTNAMELEN+15 - len, "%0*lu",
+    if (!buf)
+        out_of_memory("hostrange string");
+    if (hr->singlehost)
+        snprintf(buf, size, "%s", hr->prefix);
+    else
+        snprintf(buf, size, "%s%0*lu", hr->prefix,
                  hr->width, hr->lo + depth);
-    return strdup(buf);
+    return buf;
 }
 
 char * hostlist_nth(hostlist_t hl, int n)
@@ -2315,7 +2320,6 @@ static void _iterator_advance_range(hostlist_iterator_t i)
 char *hostlist_next(hostlist_iterator_t i)
 {
     char *buf = NULL;
-    char suffix[16];
     int len = 0;
     assert(i != NULL);
     assert(i->magic == HOSTLIST_MAGIC);
@@ -2327,18 +2331,16 @@ char *hostlist_next(hostlist_iterator_t i)
         return NULL;
     }
 
-    suffix[0] = '\0';
-
-    if (!i->hr->singlehost)
-        snprintf (suffix, 15, "%0*lu", i->hr->width, i->hr->lo + i->depth);
-
-    len = strlen (i->hr->prefix) + strlen (suffix) + 1;
+    /* room for the whole numeric part: a 16 byte buffer cut it at 14 digits */
+    len = strlen (i->hr->prefix) + i->hr->width + 32;
     if (!(buf = malloc (len)))
         out_of_memory("hostlist_next");
 
-    buf[0] = '\0';
-    strcat (buf, i->hr->prefix);
-    strcat (buf, suffix);
+    if (i->hr->singlehost)
+        snprintf (buf, len, "%s", i->hr->prefix);
+    else
+        snprintf (buf, len, "%s%0*lu", i->hr->prefix,
+                  i->hr->width, i->hr->lo + i->depth);
 
     UNLOCK_HOSTLIST(i->hl);
     return (buf);
